@@ -21,6 +21,8 @@ class Run:
         shutil.rmtree(self.dir, ignore_errors=True)
         os.makedirs(self.dir, exist_ok=True)
         os.makedirs(os.path.join(OUT, "replays"), exist_ok=True)
+        for old in glob.glob(os.path.join(OUT, "replays", "%s-%s-*" % (pid, tier))):
+            os.remove(old)
         self.binary = None
         self.binary_fast = None
         self.states = 0
@@ -140,11 +142,15 @@ class Run:
         if k is not None:
             self.known_hits.append((k, f, line))
             return
+        n = len(self.violations)
+        if n >= 40:
+            # enough replay files; further violations are only counted
+            self.violations.append({"kind": "trace", "tags": own, "ev": ev, "line": line, "replay": self.violations[39]["replay"]})
+            return
         # slice: from the last reset up to the failing line
         start = line - 1
         while start > 0 and not lines[start].startswith('{"ev":"reset"'):
             start -= 1
-        n = len(self.violations)
         path = os.path.join(OUT, "replays", "%s-%s-%d.json" % (self.pid, self.tier, n))
         json.dump({"property": self.pid, "tier": self.tier, "seed": self.seed, "tags": own, "trace_spec": tracemod,
                    "trace_file": f, "line": line, "event": event,
@@ -192,7 +198,10 @@ class Run:
                                                  "harness logs faithfully (binding demonstrations in DESIGN.md section 10)"],
               "wall_s": round(time.time() - self.t0, 1), "violations": len(self.violations)}
         if error:
-            ev["coverage"]["tool_error"] = error[:2000]
+            # a run that ended in a tool error decided nothing: say so instead of reporting empty model-checking counts
+            ev["level"] = "other"
+            ev["coverage"] = {"explanation": "TOOL ERROR - this run produced no verdict and no coverage: " + error[:1500],
+                              "samples": [{"note": "none"}]}
         json.dump(ev, open(os.path.join(V, "evidence", self.pid + ".json"), "w"), indent=1)
 
     def finish(self):
